@@ -483,14 +483,17 @@ def rand_verdict_case(rng, i):
     if grader == 'N':
         n, failable = 1, 0
     cx = kind == 'cx' or (kind in ('vec', 'mat') and rng.random() < 0.2)
-    scale = rng.choice([1, 2, 4, 5, 8, 10, 16, 20])
+    dyadic = rng.random() < 0.3            # short binary fractions everywhere: boundary cases become replayable
+    scale = rng.choice([1, 2, 4, 8, 16]) if dyadic else rng.choice([1, 2, 4, 5, 8, 10, 16, 20])
     kmax = rng.choice([8, 40, 200]) if kind == 'real' else rng.choice([6, 20, 60])
     tkind = rng.choice(['abs', 'pct'])
     linear = kind == 'real'
     if tkind == 'abs':
-        t = rng.choice(ABS_TOLS)
+        t = rng.choice([Fraction(0), Fraction(1, 4), Fraction(1, 2), Fraction(1), Fraction(5, 4), Fraction(3)] if dyadic
+                       else ABS_TOLS)
     else:
-        t = rng.choice(PCT_TOLS + ([Fraction(1, 100), Fraction(1, 10)] if linear else []))
+        t = rng.choice([Fraction(0), Fraction(25, 2), Fraction(25), Fraction(50), Fraction(100), Fraction(200)] if dyadic
+                       else PCT_TOLS + ([Fraction(1, 100), Fraction(1, 10)] if linear else []))
     forms = ['add', 'add', 'addvar', 'addvar', 'mul', 'neg', 'const', 'same']
     if kind == 'real':
         forms += ['abs', 'sq', 'conj']
@@ -527,10 +530,15 @@ def rand_verdict_case(rng, i):
     if form in ('add', 'addvar', 'const'):
         def deviation(ent):
             rad = radius(ent)
-            f = rng.choice(FACTORS)
+            f = rng.choice(FACTORS + ([Fraction(1)] * 4 if dyadic else []))
             if rad == 0:
                 rad, f = 1.0, rng.choice([Fraction(0), Fraction(1, 2)])
-            den = rng.choice([20, 100, 200]) if rad * float(f) < 2 else rng.choice([1, 2, 10])
+            if form == 'const' and not linear:
+                den = scale                      # keeps |x - const|^2 inside 32-bit integers
+            elif dyadic:
+                den = rng.choice([16, 64, 128])
+            else:
+                den = rng.choice([20, 100, 200]) if rad * float(f) < 2 else rng.choice([1, 2, 10])
             # direction: a random vector, normalised in float, then snapped to the grid
             u = [(rng.gauss(0, 1), rng.gauss(0, 1) if cx else 0.0) for _ in range(k)]
             if rng.random() < 0.3:      # one entry only
@@ -548,11 +556,12 @@ def rand_verdict_case(rng, i):
             par = [dv] * n
     elif form == 'mul':
         if tkind == 'pct':
-            eps = t / 100 * rng.choice(FACTORS) * rng.choice([1, -1])
+            fs = FACTORS if linear else [Fraction(0), Fraction(1, 2), Fraction(1), Fraction(2), Fraction(10)]
+            eps = t / 100 * rng.choice(fs) * rng.choice([1, -1])
         else:
             eps = rng.choice([Fraction(0), Fraction(1, 100), Fraction(1, 20), Fraction(-1, 10), Fraction(1, 4),
                               Fraction(1, 2), Fraction(-2), Fraction(1)])
-        if eps.denominator > 10000 or abs(eps.numerator) > 50:
+        if eps.denominator > (10000 if linear else 200) or abs(eps.numerator) > 50:
             eps = Fraction(1, 100)
         par = [[(eps, Fraction(0))]] * n
     else:
